@@ -115,9 +115,7 @@ theorem sum_present (groups : Groups F) (off : Nat) (ψ : Nat → List F → F) 
 /-- the prover's accumulation over the group table is a sum over the present groups -/
 theorem fold_groups_eq (groups : Groups F) (off : Nat) (φ : Nat → List F → List F) (init : List F) :
     (List.zipIdx groups off).foldl (fun (acc : List F) (e : Option (List F) × Nat) =>
-        match e.1 with
-        | none => acc
-        | some f => addVec acc (φ e.2 f)) init
+        (e.1.map fun f => addVec acc (φ e.2 f)).getD acc) init
       = ((present groups off).map fun e => φ e.1 e.2).foldl addVec init := by
   induction groups generalizing off init with
   | nil => simp [present]
